@@ -667,6 +667,42 @@ def rule_r8(prog, res) -> None:
                 a0 = expand_locals(m.node, a0, set(m.param_names()))
                 if any(isinstance(y, ast.Attribute) and y.attr == "trees" for y in ast.walk(a0)) or any(isinstance(y, ast.Call) and (dotted(y.func) or "").endswith("load") for y in ast.walk(a0)):
                     bad = x
+        # … and on the arm for "no binning" the loaded object is handed on whole: taking an element of it (or iterating
+        # / unpacking it) also succeeds on a tuple of per-bin trees, so the crash state is consumed silently (the tree
+        # of the first bin stands in for the whole patch) instead of failing on the first use as a tree
+        sliced = None
+        if bad is None:
+            def loaded(e) -> bool:
+                return any((isinstance(y, ast.Attribute) and y.attr == "trees") or (isinstance(y, ast.Call) and (dotted(y.func) or "").endswith("load")) for y in ast.walk(e))
+
+            try:
+                mpaths = symx.explore(prog, m, inline=symx.inline_private_helpers(prog, public={"is_binned"}))
+            except symx.TooManyPaths:
+                mpaths = []
+            for p in mpaths:
+                unbinned = any((("is_binned" in unparse(t) and pol is False) or (unparse(t).replace(" ", "") in ("self.binningisNone",) and pol is True) or (unparse(t).replace(" ", "") in ("self.binningisnotNone",) and pol is False)) for t, pol in p.literals())
+                if not unbinned:
+                    continue
+                outs = [p.value] if p.value is not None else []
+                outs += [ev.expr for ev in p.events if ev.kind == "yield" and ev.expr is not None]
+                for o in outs:
+                    for y in ast.walk(o):
+                        if isinstance(y, ast.Subscript) and loaded(y.value):
+                            sliced = (p, y)
+                        if isinstance(y, ast.Starred) and loaded(y.value):
+                            sliced = (p, y)
+                        if isinstance(y, ast.Call) and isinstance(y.func, ast.Name) and y.func.id in (symx.ELEM, "next", "iter", "list", "tuple") and y.args and loaded(y.args[0]) and not (isinstance(y.func, ast.Name) and y.func.id == "repeat"):
+                            sliced = (p, y)
+        if sliced is not None:
+            res.violation(
+                "C08.R8",
+                m,
+                sliced[0].node or m.node,
+                f"{ci.name}.{m.name} takes an element of the unpickled '{tcont}' (`{unparse(sliced[1])[:60]}`) when the marker says \"no binning\": the marker '{tmark}' is written in place and an empty marker reads as that state, "
+                "so after a crash between creating and writing the marker the tree of the first redshift bin is silently served as the tree of the whole patch (handing the object on whole fails loudly on first use)",
+                key_extra=f"content-element-on-unbinned-{m.name}",
+            )
+            continue
         if bad is not None:
             res.violation(
                 "C08.R8",
